@@ -19,4 +19,15 @@ def build_registry():
                 continue
             raise
         mod.register(reg, S)
+    # contracts that refer to other contracts' clauses are registered last
+    from . import c_track
+    c_track.register_dispatcher(reg, S)
+    for m in ("c_sections",):
+        try:
+            mod = importlib.import_module(f"contracts.{m}")
+        except ModuleNotFoundError as e:
+            if f"contracts.{m}" in str(e):
+                continue
+            raise
+        mod.register(reg, S)
     return reg
